@@ -37,10 +37,22 @@ theorem blocks_succ (s : Bytes) (fuel p : Nat) (out : Bytes) :
 theorem storedBlock_stop (s : Bytes) (p : Nat) (out : Bytes) (st : Status) (q : Nat) (o : Bytes)
     (h : storedBlock s p out = .stop st q o) : st ≠ .done := by
   unfold storedBlock at h
-  repeat' split at h
-  all_goals first
-    | (simp only [BlockResult.stop.injEq] at h; obtain ⟨rfl, _, _⟩ := h; exact fun hc => by cases hc)
-    | simp at h
+  simp only at h
+  by_cases c1 : (p + 7) / 8 + 4 > s.size
+  · rw [if_pos c1] at h
+    simp only [BlockResult.stop.injEq] at h
+    obtain ⟨rfl, _, _⟩ := h
+    exact fun hc => by cases hc
+  · rw [if_neg c1] at h
+    split at h
+    · simp only [BlockResult.stop.injEq] at h
+      obtain ⟨rfl, _, _⟩ := h
+      exact fun hc => by cases hc
+    · split at h
+      · simp only [BlockResult.stop.injEq] at h
+        obtain ⟨rfl, _, _⟩ := h
+        exact fun hc => by cases hc
+      · simp at h
 
 theorem huffBlock_stop (hl hd : Huff) (minL minD : Nat) (s : Bytes) (lo : Nat) :
     ∀ (fuel p : Nat) (out : Bytes) (st : Status) (q : Nat) (o : Bytes),
@@ -168,12 +180,10 @@ theorem decodeBlock_spec {s : Bytes} (hdyn : DynRefines s) (st : St) (p : Nat) (
     (h : specBlock s p out = .next p1 out1) :
     ∃ st', decodeBlock s st = .ok (bitAt s p, st') ∧ StInv s st' p1 ∧ st'.out = out1 := by
   -- the three header bits
-  have hfill : ∃ st1, (if st.nBits < 3 then do
-        let (b0, st) ← readU8 s st
-        .ok { st with bits := st.bits ||| (b0 <<< (st.nBits &&& 3)), nBits := (st.nBits &&& 3) + 8 }
-      else (.ok st : M St)) = .ok st1 ∧
+  have hfill : ∃ st1, fillHeader s st = .ok st1 ∧
       BRInv s { bits := st1.bits, nBits := st1.nBits, ri := st1.ri } p ∧ 3 ≤ st1.nBits ∧ st1.nBits < 11 ∧
       st1.out = st.out ∧ st1.huffs0 = st.huffs0 ∧ st1.huffs1 = st.huffs1 ∧ st1.codeLengths = st.codeLengths := by
+    unfold fillHeader
     by_cases h3 : st.nBits < 3
     · rw [if_pos h3]
       have hpos := hi.br.pos
